@@ -29,13 +29,6 @@ Definition ovotes (outs : list out) : list Spec.vote :=
   flat_map (fun o => match o with OBroadcast r p v _ _ => [voteS k r p v] | _ => [] end) outs.
 Definition EV (i : inst) : list Spec.vote := ovotes (i_out i) ++ E0.
 Definition votable (p : phase) : Prop := match p with INITIAL | TERMINATED => False | _ => True end.
-(* every broadcast of the current step satisfied its guard on the votes cast before it *)
-Fixpoint log_ok (outs : list out) : Prop :=
-  match outs with
-  | [] => True
-  | OBroadcast r p v _ _ :: rest => guardz (ovotes rest ++ E0) k r p v /\ 0 <= r /\ votable p /\ log_ok rest
-  | _ :: rest => log_ok rest
-  end.
 
 (* ---------- shapes of justifications ---------- *)
 Definition jprev (E : list Spec.vote) (r : Z) (v : chain) (j : just) : Prop :=
@@ -47,6 +40,33 @@ Lemma jprev_mono E E' r v j : incl E E' -> jprev E r v j -> jprev E' r v j.
 Proof. intros Hi (A & B & C). split; [eapply backed_mono; eauto|auto]. Qed.
 Lemma jsame_mono E E' r v j : incl E E' -> jsame E r v j -> jsame E' r v j.
 Proof. intros Hi (A & B & C). split; [eapply backed_mono; eauto|auto]. Qed.
+
+
+(* evidence for a value: a prefix of the own input, or a strong quorum of votes for it *)
+Definition evid (E : list Spec.vote) (v : chain) : Prop :=
+  Spec.is_prefix v kin \/ exists r p, 0 <= r /\ SQz E r p v.
+(* the justification attached to an own broadcast is what a peer's validation demands (cf. adm below) *)
+Definition admj (E : list Spec.vote) (r : Z) (p : phase) (v : chain) (j : option just) : Prop :=
+  match p with
+  | QUALITY => r = 0 /\ v <> [] /\ j = None
+  | CONVERGE => 1 <= r /\ v <> [] /\ exists jj, j = Some jj /\ jprev E r v jj
+  | PREPARE => (r = 0 /\ j = None) \/ (1 <= r /\ exists jj, j = Some jj /\ jprev E r v jj)
+  | COMMIT => (v = [] /\ j = None) \/ (v <> [] /\ exists jj, j = Some jj /\ jsame E r v jj)
+  | DECIDE => r = 0 /\ v <> [] /\ exists jj, j = Some jj /\ backed E jj /\ j_phase jj = COMMIT /\ j_value jj = v
+  | _ => False
+  end.
+(* every broadcast of the current step satisfied its guard on the votes cast before it, carries a justification its peers
+   accept, and is for a value the participant has evidence for *)
+Fixpoint log_ok (outs : list out) : Prop :=
+  match outs with
+  | [] => True
+  | OBroadcast r p v j _ :: rest =>
+      guardz (ovotes rest ++ E0) k r p v /\ 0 <= r /\ votable p /\
+      admj (ovotes rest ++ E0) r p v j /\ (v <> [] -> evid (ovotes rest ++ E0) v) /\ log_ok rest
+  | _ :: rest => log_ok rest
+  end.
+Lemma evid_mono E E' v : incl E E' -> evid E v -> evid E' v.
+Proof. intros Hi [H|(r & p & H0 & H)]; [left; exact H|right; exists r, p; split; [exact H0|eapply SQz_mono; eauto]]. Qed.
 
 (* ---------- what the participant knows ---------- *)
 Record QE (E : list Spec.vote) (r : Z) (p : phase) (q : qstate) : Prop := {
@@ -69,7 +89,8 @@ Record EvC (E : list Spec.vote) (rho : Z) (i : inst) : Prop := {
   ec_dec : QE E 0 DECIDE (i_decision i);
   ec_cands : Cands E rho (i_cands i);
   ec_input : i_input i = kin /\ kin <> [];
-  ec_prop : i_proposal i <> [] }.
+  ec_prop : i_proposal i <> [];
+  ec_pev : evid E (i_proposal i) }.
 (* the part that does *)
 Definition EvP (E : list Spec.vote) (i : inst) : Prop :=
   (i_phase i = PREPARE -> In (voteS k (i_round i) PREPARE (i_proposal i)) E) /\
@@ -95,10 +116,11 @@ Proof.
 Qed.
 Lemma EvC_mono E E' rho rho' i : incl E E' -> rho <= rho' -> EvC E rho i -> EvC E' rho' i.
 Proof.
-  intros Hi Hr [A B C D F]. constructor; auto.
+  intros Hi Hr [A B C D F G]. constructor; auto.
   - intros r. eapply RE_mono; eauto.
   - eapply QE_mono; eauto.
   - eapply Cands_mono; eauto.
+  - eapply evid_mono; eauto.
 Qed.
 Lemma EvP_mono E E' i : incl E E' -> EvP E i -> EvP E' i.
 Proof. intros Hi (A & B). split; auto. Qed.
@@ -177,7 +199,7 @@ Qed.
 Definition cview (i : inst) := (i_rounds i, i_decision i, i_cands i, i_input i, i_proposal i).
 Definition pview' (i : inst) := (i_phase i, i_round i, i_proposal i).
 Lemma EvC_view E rho i i' : cview i' = cview i -> EvC E rho i -> EvC E rho i'.
-Proof. unfold cview. intros Ev' [A B C D F]. injection Ev' as E1 E2 E3 E4 E5. constructor; rewrite ?E1, ?E2, ?E3, ?E4, ?E5; assumption. Qed.
+Proof. unfold cview. intros Ev' [A B C D F G]. injection Ev' as E1 E2 E3 E4 E5. constructor; rewrite ?E1, ?E2, ?E3, ?E4, ?E5; assumption. Qed.
 Lemma EvP_view E i i' : pview' i' = pview' i -> EvP E i -> EvP E i'.
 Proof. unfold pview', EvP. intros Ev'. injection Ev' as -> -> ->. auto. Qed.
 
@@ -214,10 +236,11 @@ Proof. apply Ev_quiet; try reflexivity. split; [reflexivity|exact (fun H => H)].
 (* the generic step: new progress / proposal / candidates, then one broadcast *)
 Lemma Ev_bcast i i' r p v t j :
   log_ok (i_out i) -> same_votes i i' -> 0 <= r -> votable p -> guardz (EV i) k r p v ->
+  admj (EV i) r p v j -> (v <> [] -> evid (EV i) v) ->
   (forall E, incl (EV i) E -> In (voteS k r p v) E -> EvI E i') ->
   Ev (broadcast i' r p v t j).
 Proof.
-  intros L [Ho Hl] Hr Hvt Hg HI.
+  intros L [Ho Hl] Hr Hvt Hg Haj Hev HI.
   assert (HEV : EV (broadcast i' r p v t j) = voteS k r p v :: EV i).
   { unfold EV, broadcast. cbn [emit i_out]. change (ovotes (OBroadcast r p v j t :: i_out i')) with (voteS k r p v :: ovotes (i_out i')).
     rewrite Ho. reflexivity. }
@@ -225,7 +248,7 @@ Proof.
   - rewrite HEV. assert (HE : EvI (voteS k r p v :: EV i) i').
     { apply HI; [intros x Hx; right; exact Hx|left; reflexivity]. }
     destruct HE as [A B]. split; [eapply EvC_view; [|exact A]; reflexivity|eapply EvP_view; [|exact B]; reflexivity].
-  - unfold broadcast. cbn [emit i_out log_ok]. rewrite Ho. split; [exact Hg|split; [exact Hr|split; [exact Hvt|apply Hl; exact L]]].
+  - unfold broadcast. cbn [emit i_out log_ok]. rewrite Ho. split; [exact Hg|split; [exact Hr|split; [exact Hvt|split; [exact Haj|split; [exact Hev|apply Hl; exact L]]]]].
 Qed.
 (* ... or none *)
 Lemma Ev_upd i i' : log_ok (i_out i) -> same_votes i i' -> EvI (EV i) i' -> Ev i'.
@@ -326,12 +349,12 @@ Lemma Ev_round_nonneg i : Ev i -> 0 <= i_round i.
 Proof. intros [[_ (_ & _ & _ & H)] _]. exact H. Qed.
 
 Lemma Ev_begin_prepare i j : Ev i -> i_value i = i_proposal i -> guardz (EV i) k (i_round i) PREPARE (i_value i) ->
-  Ev (begin_prepare c i j).
+  admj (EV i) (i_round i) PREPARE (i_value i) j -> Ev (begin_prepare c i j).
 Proof.
-  intros HE Hv Hg. pose proof HE as [[HC HP] _].
+  intros HE Hv Hg Haj. pose proof HE as [[HC HP] _].
   set (i2 := reset_rebroadcast (alarm_after c (set_progress i (i_round i) PREPARE) false)).
   change (Ev (broadcast i2 (i_round i) PREPARE (i_value i) false j)).
-  apply (Ev_bcast i i2); [apply HE|split; [reflexivity|exact (fun H => H)]|apply Ev_round_nonneg; exact HE|exact I|exact Hg|].
+  apply (Ev_bcast i i2); [apply HE|split; [reflexivity|exact (fun H => H)]|apply Ev_round_nonneg; exact HE|exact I|exact Hg|exact Haj|intros _; rewrite Hv; apply (ec_pev _ _ _ HC)|].
   intros E Hi Hin. split.
   - apply (EvC_view E (i_round i) i i2); [reflexivity|]. apply (EvC_mono (EV i) E (i_round i) (i_round i) i Hi); [lia|exact HC].
   - split; [intros _; cbn; rewrite <- Hv; exact Hin|]. split; [cbn; discriminate|]. split; [cbn; discriminate|]. apply HP.
@@ -359,6 +382,11 @@ Qed.
 Lemma jprev_prepare_SQ E r v j : jprev E r v j -> j_phase j = PREPARE -> SQz E (r - 1) PREPARE v /\ 0 <= r - 1.
 Proof. intros ((H0 & Hb) & Hr & [[Hp Hv]|[Hp Hv]]) Hph; [|congruence]. rewrite Hr, Hp, Hv in Hb. rewrite Hr in H0. split; assumption. Qed.
 
+Lemma jprev_jsame E r v j : jprev E (r + 1) v j -> j_phase j = PREPARE -> jsame E r v j.
+Proof.
+  intros (Hb & Hr & [[Hp Hv]|[Hp Hv]]) Hph; [|congruence]. split; [exact Hb|]. split; [lia|]. split; assumption.
+Qed.
+
 Lemma Ev_begin_commit i : Ev i -> i_phase i = PREPARE -> AllQ c i ->
   (i_value i = i_proposal i \/
    (i_value i = [] /\ exists t x, x <> i_proposal i /\ In (voteS t (i_round i) PREPARE x) (EV i) /\ justifiedz (EV i) (i_round i) x)) ->
@@ -366,8 +394,9 @@ Lemma Ev_begin_commit i : Ev i -> i_phase i = PREPARE -> AllQ c i ->
 Proof.
   intros HE Hph HA Hval. pose proof HE as [[HC HP] _]. destruct HP as (Hown & _ & _ & Hr0). specialize (Hown Hph).
   set (i2 := reset_rebroadcast (alarm_after c (set_progress i (i_round i) COMMIT) false)).
-  assert (Hfin : forall v j', guardz (EV i) k (i_round i) COMMIT v -> Ev (broadcast i2 (i_round i) COMMIT v false j')).
-  { intros v j' Hg. apply (Ev_bcast i i2); [apply HE|split; [reflexivity|exact (fun H => H)]|exact Hr0|exact I|exact Hg|].
+  assert (Hfin : forall v j', guardz (EV i) k (i_round i) COMMIT v -> admj (EV i) (i_round i) COMMIT v j' -> (v <> [] -> v = i_proposal i) ->
+                 Ev (broadcast i2 (i_round i) COMMIT v false j')).
+  { intros v j' Hg Haj Hvp. apply (Ev_bcast i i2); [apply HE|split; [reflexivity|exact (fun H => H)]|exact Hr0|exact I|exact Hg|exact Haj|intros Hne; rewrite (Hvp Hne); apply (ec_pev _ _ _ HC)|].
     intros E Hi Hin. split.
     - apply (EvC_view E (i_round i) i i2); [reflexivity|]. apply (EvC_mono (EV i) E (i_round i) (i_round i) i Hi); [lia|exact HC].
     - split; [cbn; discriminate|]. split; [cbn; discriminate|]. split; [cbn; discriminate|exact Hr0]. }
@@ -379,39 +408,42 @@ Proof.
   change (i_value i2) with (i_value i). change (i_round i2) with (i_round i).
   change (get_round i2 (i_round i)) with (get_round i (i_round i)). change (get_round i2 (i_round i + 1)) with (get_round i (i_round i + 1)).
   destruct (i_value i) as [|x v] eqn:Ev'.
-  - apply Hfin. destruct Hval as [Hval|(_ & t & y & Hy & Hin & Hj)]; [exfalso; apply (ec_prop _ _ _ HC); symmetry; exact Hval|].
+  - apply Hfin; [|left; split; reflexivity|intros H; congruence]. destruct Hval as [Hval|(_ & t & y & Hy & Hin & Hj)]; [exfalso; apply (ec_prop _ _ _ HC); symmetry; exact Hval|].
     apply (guardz_commit_bot (EV i) (i_round i) (i_proposal i) t y); [apply (ec_prop _ _ _ HC)|exact Hown|exact Hy|exact Hin|exact Hj].
   - destruct Hval as [Hval|(Hval & _)]; [|discriminate Hval].
-    assert (Hcommit : SQz (EV i) (i_round i) PREPARE (x :: v) -> forall j', Ev (broadcast i2 (i_round i) COMMIT (x :: v) false j')).
-    { intros Hsq j'. apply Hfin. apply guardz_commit; [discriminate|rewrite Hval; exact Hown|exact Hsq]. }
+    assert (Hcommit : forall jj, jsame (EV i) (i_round i) (x :: v) jj -> Ev (broadcast i2 (i_round i) COMMIT (x :: v) false (Some jj))).
+    { intros jj Hjs. apply Hfin; [|right; split; [discriminate|exists jj; split; [reflexivity|exact Hjs]]|intros _; exact Hval].
+      destruct Hjs as ((_ & Hb) & Hjr & Hjp & Hjv). rewrite Hjr, Hjp, Hjv in Hb.
+      apply guardz_commit; [discriminate|rewrite Hval; exact Hown|exact Hb]. }
     pose proof (ec_rounds _ _ _ HC (i_round i)) as Rcur. pose proof (ec_rounds _ _ _ HC (i_round i + 1)) as Rnxt.
     fold (get_round i (i_round i)) in Rcur. fold (get_round i (i_round i + 1)) in Rnxt.
     destruct (q_find_sq_for c (r_prep (get_round i (i_round i))) (x :: v)) as [| |sg] eqn:Ef.
     + destruct (q_get_just (r_comm (get_round i (i_round i))) PREPARE (x :: v)) as [j|] eqn:E1.
       { apply Hcommit. destruct (q_get_just_nz _ _ _ _ _ E1) as (e & Hin & He & Hs & Hp).
-        destruct (re_cjust _ _ _ Rcur e Hin) as [((_ & Hb) & Hjr & Hjp & Hjv) _]. rewrite Hjr, Hjp, Hjv, He in Hb. exact Hb. }
+        destruct (re_cjust _ _ _ Rcur e Hin) as [Hjs _]. rewrite He, Hs in Hjs. exact Hjs. }
       destruct (q_get_just (r_prep (get_round i (i_round i + 1))) PREPARE (x :: v)) as [j|] eqn:E2.
       { apply Hcommit. destruct (q_get_just_nz _ _ _ _ _ E2) as (e & Hin & He & Hs & Hp).
-        pose proof (re_pjust _ _ _ Rnxt e Hin) as Hj. rewrite He, Hs in Hj. destruct (jprev_prepare_SQ _ _ _ _ Hj Hp) as [Hsq _].
-        replace (i_round i + 1 - 1) with (i_round i) in Hsq by lia. exact Hsq. }
+        pose proof (re_pjust _ _ _ Rnxt e Hin) as Hj. rewrite He, Hs in Hj. apply (jprev_jsame _ _ _ _ Hj Hp). }
       destruct (c_get_just (r_conv (get_round i (i_round i + 1))) PREPARE (x :: v)) as [j|] eqn:E3.
       { apply Hcommit. destruct (c_get_just_nz _ _ _ _ _ E3) as (cv & Hin & He & Hs & Hp).
-        destruct (re_conv _ _ _ Rnxt cv Hin) as [Hj _]. rewrite He, Hs in Hj. destruct (jprev_prepare_SQ _ _ _ _ Hj Hp) as [Hsq _].
-        replace (i_round i + 1 - 1) with (i_round i) in Hsq by lia. exact Hsq. }
+        destruct (re_conv _ _ _ Rnxt cv Hin) as [Hj _]. rewrite He, Hs in Hj. apply (jprev_jsame _ _ _ _ Hj Hp). }
       apply Ev_fail. exact Hi2.
     + apply Ev_fail. exact Hi2.
     + apply Hcommit. destruct (find_sq_for_inv _ _ _ Ef) as (s & Hs & Hsq).
+      split; [split; [exact Hr0|]|split; [reflexivity|split; reflexivity]]. cbn [build_just j_round j_phase j_value].
       apply (local_SQ (EV i) (i_round i) PREPARE (r_prep (get_round i (i_round i))) (x :: v) s); [apply HA|exact (re_prep _ _ _ Rcur)|exact Hs|exact Hsq].
 Qed.
 
 Lemma EvC_upd E rho rho' i i' :
   i_rounds i' = i_rounds i -> i_decision i' = i_decision i -> Cands E rho (i_cands i') -> i_input i' = i_input i -> i_proposal i' <> [] ->
-  EvC E rho' i -> EvC E rho i'.
-Proof. intros E1 E2 HC E4 HP [A B _ D _]. constructor; rewrite ?E1, ?E2, ?E4; assumption. Qed.
+  evid E (i_proposal i') -> EvC E rho' i -> EvC E rho i'.
+Proof. intros E1 E2 HC E4 HP HV [A B _ D _ _]. constructor; rewrite ?E1, ?E2, ?E4; assumption. Qed.
+Lemma Cands_evid E rho l v : Cands E rho l -> In v l -> evid E v.
+Proof. intros H Hv. destruct (H v Hv) as [_ [P|(r1 & R1 & S1)]]; [left; exact P|right; exists r1, PREPARE; split; [lia|exact S1]]. Qed.
 
-Lemma Ev_begin_decide i round : Ev i -> i_value i <> [] -> (exists r, SQz (EV i) r COMMIT (i_value i)) -> Ev (begin_decide c i round).
+Lemma Ev_begin_decide i round : Ev i -> i_value i <> [] -> 0 <= round -> SQz (EV i) round COMMIT (i_value i) -> Ev (begin_decide c i round).
 Proof.
-  intros HE Hne (r & Hsq). pose proof HE as [[HC HP] L]. destruct HP as (_ & _ & _ & Hr0).
+  intros HE Hne Hrd Hsq. pose proof HE as [[HC HP] L]. destruct HP as (_ & _ & _ & Hr0).
   set (i2 := reset_rebroadcast (set_progress i (i_round i) DECIDE)).
   assert (HI2 : forall E, incl (EV i) E -> EvI E i2).
   { intros E Hi. split.
@@ -421,16 +453,23 @@ Proof.
   destruct (q_find_sq_for c _ _).
   - apply Ev_fail. apply (Ev_upd i i2); [exact L|split; [reflexivity|exact (fun H => H)]|apply HI2; apply incl_refl].
   - apply Ev_fail. apply (Ev_upd i i2); [exact L|split; [reflexivity|exact (fun H => H)]|apply HI2; apply incl_refl].
-  - apply (Ev_bcast i i2); [exact L|split; [reflexivity|exact (fun H => H)]|lia|exact I|apply (guardz_decide _ _ r); assumption|]. intros E Hi _. apply HI2. exact Hi.
+  - apply (Ev_bcast i i2); [exact L|split; [reflexivity|exact (fun H => H)]|lia|exact I|apply (guardz_decide _ _ round); assumption| | |].
+    + split; [reflexivity|]. split; [exact Hne|]. eexists. split; [reflexivity|]. split; [split; [exact Hrd|exact Hsq]|split; reflexivity].
+    + intros _. right. exists round, COMMIT. split; [exact Hrd|exact Hsq].
+    + intros E Hi _. apply HI2. exact Hi.
 Qed.
 
-Lemma Ev_skip_to_decide i v j : Ev i -> v <> [] -> (exists r, SQz (EV i) r COMMIT v) -> Ev (skip_to_decide i v j).
+Lemma Ev_skip_to_decide i v j : Ev i -> v <> [] -> backed (EV i) j -> j_phase j = COMMIT -> j_value j = v -> Ev (skip_to_decide i v (Some j)).
 Proof.
-  intros HE Hne (r & Hsq). pose proof HE as [[HC HP] L]. destruct HP as (_ & _ & _ & Hr0).
+  intros HE Hne Hjb Hjp Hjv. pose proof Hjb as [Hr Hsq]. rewrite Hjp, Hjv in Hsq. set (r := j_round j) in *.
+  pose proof HE as [[HC HP] L]. destruct HP as (_ & _ & _ & Hr0).
   unfold skip_to_decide. cbv zeta.
   set (i2 := reset_rebroadcast (set_pv (set_progress i (i_round i) DECIDE) v v)).
-  apply (Ev_bcast i i2); [exact L|split; [reflexivity|exact (fun H => H)]|lia|exact I|apply (guardz_decide _ _ r); assumption|]. intros E Hi _. split.
-  - apply (EvC_upd E (i_round i) (i_round i) i i2); try reflexivity; [|exact Hne|apply (EvC_mono (EV i) E (i_round i) (i_round i) i Hi); [lia|exact HC]].
+  assert (Hev : evid (EV i) v) by (right; exists r, COMMIT; split; [exact Hr|exact Hsq]).
+  apply (Ev_bcast i i2); [exact L|split; [reflexivity|exact (fun H => H)]|lia|exact I|apply (guardz_decide _ _ r); assumption| |intros _; exact Hev|].
+  { split; [reflexivity|]. split; [exact Hne|]. exists j. split; [reflexivity|]. split; [exact Hjb|split; assumption]. }
+  intros E Hi _. split.
+  - apply (EvC_upd E (i_round i) (i_round i) i i2); try reflexivity; [|exact Hne|eapply evid_mono; [exact Hi|exact Hev]|apply (EvC_mono (EV i) E (i_round i) (i_round i) i Hi); [lia|exact HC]].
     apply (Cands_mono (EV i) E (i_round i) (i_round i)); [exact Hi|lia|apply HC].
   - split; [cbn; discriminate|]. split; [cbn; discriminate|]. split; [cbn; discriminate|exact Hr0].
 Qed.
@@ -446,9 +485,9 @@ Proof.
   set (rs := get_round i2 (i_round i)).
   set (i3 := set_round_state i2 (i_round i) (mkR (c_set_self (r_conv rs) (i_proposal i) j) (r_prep rs) (r_comm rs))).
   change (i_proposal i3) with (i_proposal i). change (i_round i3) with (i_round i).
-  apply (Ev_bcast i i3); [exact L|split; [reflexivity|exact (fun H => H)]|lia|exact I|apply (guardz_converge _ _ _ j); [exact Hr|apply (ec_prop _ _ _ HC)|exact Hj]|].
+  apply (Ev_bcast i i3); [exact L|split; [reflexivity|exact (fun H => H)]|lia|exact I|apply (guardz_converge _ _ _ j); [exact Hr|apply (ec_prop _ _ _ HC)|exact Hj]|split; [exact Hr|split; [apply (ec_prop _ _ _ HC)|exists j; split; [reflexivity|exact Hj]]]|intros _; apply (ec_pev _ _ _ HC)|].
   intros E Hi _. split.
-  - pose proof (EvC_mono (EV i) E (i_round i) (i_round i) i Hi ltac:(lia) HC) as [A B C D F].
+  - pose proof (EvC_mono (EV i) E (i_round i) (i_round i) i Hi ltac:(lia) HC) as [A B C D F G].
     constructor; try assumption. intros r. change (i_rounds i3) with (rset (i_rounds i) (i_round i) (mkR (c_set_self (r_conv rs) (i_proposal i) j) (r_prep rs) (r_comm rs))).
     destruct (Z.eq_dec r (i_round i)) as [->|Hne]; [rewrite rget_rset_same|rewrite rget_rset_other by exact Hne; apply A].
     pose proof (A (i_round i)) as [R1 R2 R3 R4 R5 R6 R7]. change rs with (rget (i_rounds i) (i_round i)).
@@ -524,33 +563,34 @@ Proof.
   match goal with |- Ev (begin_converge c ?x j) => set (i3 := x) end.
   pose proof (ec_input _ _ _ HC) as [Hin Hk0].
   assert (H3 : i_rounds i3 = i_rounds i /\ i_decision i3 = i_decision i /\ i_input i3 = i_input i /\ i_out i3 = i_out i /\ i_round i3 = round /\
-               Cands (EV i) round (i_cands i3) /\ i_proposal i3 <> [] /\ (j_phase j = PREPARE -> i_proposal i3 = v)).
+               Cands (EV i) round (i_cands i3) /\ i_proposal i3 <> [] /\ (j_phase j = PREPARE -> i_proposal i3 = v) /\ evid (EV i) (i_proposal i3)).
   { unfold i3. set (i1 := set_progress i round (i_phase i)).
     match goal with |- context [if phase_eqb (j_phase j) PREPARE then _ else ?y] => set (i2 := y) end.
     assert (H2 : i_rounds i2 = i_rounds i /\ i_decision i2 = i_decision i /\ i_input i2 = i_input i /\ i_out i2 = i_out i /\ i_round i2 = round /\
-                 Cands (EV i) round (i_cands i2) /\ i_proposal i2 <> []).
+                 Cands (EV i) round (i_cands i2) /\ i_proposal i2 <> [] /\ evid (EV i) (i_proposal i2)).
     { unfold i2. destruct (phase_eqb (i_phase i1) QUALITY).
       - cbv zeta. change (i_quality i1) with (i_quality i). change (i_input i1) with (i_input i). rewrite Hin.
         set (p := q_longest_prefix (i_quality i) kin). destruct (longest_prefix_facts (i_quality i) Hk0) as (Hpne & Hpp & Hall). fold p in Hpne, Hpp, Hall.
         destruct (acp_spec (set_pv i1 p (i_value i1)) p) as (A & B & C & D & _). injection B as B1 B2 B3 B4 B5. unfold pview' in C. injection C as C1 C2 C3.
         cbn [set_pv i_rounds i_decision i_input i_out i_round i_cands i_proposal].
-        split; [exact B1|split; [exact B2|split; [exact (eq_trans B3 Hin)|split; [exact D|split; [exact C2|split; [|exact Hpne]]]]]].
+        split; [exact B1|split; [exact B2|split; [exact (eq_trans B3 Hin)|split; [exact D|split; [exact C2|split; [|split; [exact Hpne|left; exact Hpp]]]]]]].
         intros x Hx. destruct (A x Hx) as [Hx'|Hx'].
         + apply (Cands_mono (EV i) (EV i) (i_round i) round (i_cands i) (incl_refl _) ltac:(lia) (ec_cands _ _ _ HC) x Hx').
         + destruct (Hall x Hx') as [N P]. split; [exact N|left; exact P].
-      - split; [reflexivity|split; [reflexivity|split; [reflexivity|split; [reflexivity|split; [reflexivity|split; [|apply (ec_prop _ _ _ HC)]]]]]].
+      - split; [reflexivity|split; [reflexivity|split; [reflexivity|split; [reflexivity|split; [reflexivity|split; [|split; [apply (ec_prop _ _ _ HC)|apply (ec_pev _ _ _ HC)]]]]]]].
         apply (Cands_mono (EV i) (EV i) (i_round i) round); [apply incl_refl|lia|apply HC]. }
-    destruct H2 as (A2 & B2 & C2 & D2 & E2 & F2 & G2).
+    destruct H2 as (A2 & B2 & C2 & D2 & E2 & F2 & G2 & V2).
     destruct (phase_eqb (j_phase j) PREPARE) eqn:Ep.
     - apply phase_eqb_true in Ep. cbv zeta. destruct (cview_add_candidate i2 v) as (Ca & Cb & Cc & Cd & _).
       injection Cb as Cb1 Cb2 Cb3 Cb4 Cb5. unfold pview' in Cc. injection Cc as Cc1 Cc2 Cc3.
       cbn [set_pv i_rounds i_decision i_input i_out i_round i_cands i_proposal].
-      split; [congruence|split; [congruence|split; [congruence|split; [congruence|split; [congruence|split; [|split; [exact Hv|reflexivity]]]]]]].
+      destruct (jprev_prepare_SQ _ _ _ _ Hj Ep) as [Hsq H0].
+      split; [congruence|split; [congruence|split; [congruence|split; [congruence|split; [congruence|split; [|split; [exact Hv|split; [reflexivity|right; exists (round - 1), PREPARE; split; [exact H0|exact Hsq]]]]]]]]].
       rewrite Ca. destruct (is_candidate i2 v); [exact F2|]. apply Cands_add; [exact F2|]. split; [exact Hv|right].
-      destruct (jprev_prepare_SQ _ _ _ _ Hj Ep) as [Hsq H0]. exists (round - 1). split; [lia|exact Hsq].
+      exists (round - 1). split; [lia|exact Hsq].
     - apply phase_eqb_false in Ep.
-      split; [exact A2|split; [exact B2|split; [exact C2|split; [exact D2|split; [exact E2|split; [exact F2|split; [exact G2|intros H; congruence]]]]]]]. }
-  destruct H3 as (A3 & B3 & C3 & D3 & E3 & F3 & G3 & H3).
+      split; [exact A2|split; [exact B2|split; [exact C2|split; [exact D2|split; [exact E2|split; [exact F2|split; [exact G2|split; [intros H; congruence|exact V2]]]]]]]]. }
+  destruct H3 as (A3 & B3 & C3 & D3 & E3 & F3 & G3 & H3 & V3).
   assert (HE3 : EV i3 = EV i) by (unfold EV; rewrite D3; reflexivity).
   apply Ev_begin_converge; rewrite ?HE3, ?E3, ?D3; [|exact L|lia|].
   - apply (EvC_upd (EV i) round (i_round i) i i3); assumption.
@@ -570,12 +610,12 @@ Proof.
   assert (HE' : Ev i').
   { apply (Ev_upd i i'); [exact L|split; [exact Hv'|unfold i'; cbn [set_pv i_out]; rewrite D; exact (fun H => H)]|]. split.
     - assert (Hr' : i_round i' = i_round i) by (unfold i'; cbn [set_pv i_round]; exact C2). rewrite Hr'.
-      apply (EvC_upd (EV i) (i_round i) (i_round i) i i'); [exact B1|exact B2| |exact B3|exact Hpne|exact HC].
+      apply (EvC_upd (EV i) (i_round i) (i_round i) i i'); [exact B1|exact B2| |exact B3|exact Hpne|left; exact Hpp|exact HC].
       intros x Hx. destruct (A x Hx) as [Hx'|Hx']; [apply (ec_cands _ _ _ HC); exact Hx'|]. destruct (Hall x Hx') as [N P]. split; [exact N|left; exact P].
     - unfold EvP. change (i_phase i') with (i_phase (add_candidate_prefixes (set_pv i p (i_value i)) p)).
       change (i_round i') with (i_round (add_candidate_prefixes (set_pv i p (i_value i)) p)). rewrite C1, C2. cbn [set_pv i_phase i_round]. rewrite Hph.
       split; [discriminate|]. split; [intros _; exact Hq|]. split; [discriminate|exact Hr0]. }
-  apply Ev_begin_prepare; [exact HE'|reflexivity|].
+  apply Ev_begin_prepare; [exact HE'|reflexivity| |left; split; [unfold i'; cbn [set_pv i_round]; rewrite C2; exact Hq|reflexivity]].
   assert (Hr' : i_round i' = 0) by (unfold i'; cbn [set_pv i_round]; rewrite C2; exact Hq).
   rewrite Hr'. change (i_value i') with p. apply guardz_prepare0; assumption.
 Qed.
@@ -603,18 +643,23 @@ Proof.
   assert (Hcand : j_phase (cv_just w) = COMMIT -> In (cv_chain w) (i_cands i)).
   { intros Hp. apply orb_prop in Hval. destruct Hval as [Hv|Hv]; [apply is_candidate_In; exact Hv|].
     apply andb_prop in Hv. destruct Hv as [Hv _]. apply phase_eqb_true in Hv. congruence. }
+  assert (Hevw : evid (EV i) (cv_chain w)).
+  { apply orb_prop in Hval. destruct Hval as [Hv|Hv]; [apply (Cands_evid _ _ _ _ (ec_cands _ _ _ HC)); apply is_candidate_In; exact Hv|].
+    apply andb_prop in Hv. destruct Hv as [Hv _]. apply phase_eqb_true in Hv.
+    destruct (jprev_prepare_SQ _ _ _ _ Hj Hv) as [Hsq H0]. right. exists (i_round i - 1), PREPARE. split; [exact H0|exact Hsq]. }
   assert (HE' : Ev i').
   { apply (Ev_upd i i'); [exact L|split; [unfold i'; cbn [set_pv i_out]; rewrite Cd; reflexivity|unfold i'; cbn [set_pv i_out]; rewrite Cd; exact (fun H => H)]|]. split.
     - assert (Hr' : i_round i' = i_round i) by (unfold i'; cbn [set_pv i_round]; exact Cc2). rewrite Hr'.
-      apply (EvC_upd (EV i) (i_round i) (i_round i) i i'); [exact Cb1|exact Cb2| |exact Cb3|exact Hne|exact HC].
+      apply (EvC_upd (EV i) (i_round i) (i_round i) i i'); [exact Cb1|exact Cb2| |exact Cb3|exact Hne|exact Hevw|exact HC].
       change (i_cands i') with (i_cands i1). rewrite Ca. destruct (is_candidate i (cv_chain w)) eqn:Eic; [apply HC|]. apply Cands_add; [apply HC|]. split; [exact Hne|right].
       apply orb_prop in Hval. destruct Hval as [Hv|Hv]; [congruence|]. apply andb_prop in Hv. destruct Hv as [Hv _]. apply phase_eqb_true in Hv.
       destruct (jprev_prepare_SQ _ _ _ _ Hj Hv) as [Hsq H0]. exists (i_round i - 1). split; [lia|exact Hsq].
     - unfold EvP. change (i_phase i') with (i_phase i1). change (i_round i') with (i_round i1). rewrite Cc1, Cc2, Hph.
       split; [discriminate|]. split; [discriminate|]. split; [intros _; exact Hc1|exact Hr0]. }
-  apply Ev_begin_prepare; [exact HE'|reflexivity|].
   assert (Hr' : i_round i' = i_round i) by (unfold i'; cbn [set_pv i_round]; exact Cc2).
-  rewrite Hr'. change (i_value i') with (cv_chain w). change (EV i') with (ovotes (i_out i1) ++ E0). rewrite Cd. fold (EV i).
+  assert (HEV' : EV i' = EV i) by (change (EV i') with (ovotes (i_out i1) ++ E0); rewrite Cd; reflexivity).
+  apply Ev_begin_prepare; [exact HE'|reflexivity| |rewrite Hr', HEV'; right; split; [exact Hc1|exists (cv_just w); split; [reflexivity|exact Hj]]].
+  rewrite Hr', HEV'. change (i_value i') with (cv_chain w).
   apply (guardz_prepareS _ _ _ (cv_just w)); [exact Hc1|exact Hne|exact Hj|].
   intros Hp. destruct (ec_cands _ _ _ HC _ (Hcand Hp)) as [_ [P|(r1 & R1 & S1)]]; [left; exact P|right; exists r1; split; [lia|exact S1]].
 Qed.
@@ -737,15 +782,15 @@ Proof.
     injection Cb as Cb1 Cb2 Cb3 Cb4 Cb5. unfold pview' in Cc. injection Cc as Cc1 Cc2 Cc3.
     match goal with |- Ev (begin_next_round c ?x) => set (i1 := x) end.
     assert (H1 : i_rounds i1 = i_rounds i /\ i_decision i1 = i_decision i /\ i_cands i1 = i_cands i0 /\ i_input i1 = i_input i /\ i_out i1 = i_out i /\
-                 i_round i1 = i_round i /\ i_phase i1 = i_phase i /\ i_proposal i1 <> []).
+                 i_round i1 = i_round i /\ i_phase i1 = i_phase i /\ i_proposal i1 <> [] /\ i_proposal i1 = v).
     { unfold i1. destruct (chain_eqb v (i_proposal i0)) eqn:Ev0.
-      - split; [exact Cb1|split; [exact Cb2|split; [reflexivity|split; [exact Cb3|split; [exact Cd|split; [exact Cc2|split; [exact Cc1|]]]]]]].
+      - split; [exact Cb1|split; [exact Cb2|split; [reflexivity|split; [exact Cb3|split; [exact Cd|split; [exact Cc2|split; [exact Cc1|split; [|symmetry; apply chain_eqb_eq; exact Ev0]]]]]]]].
         rewrite Cb4. apply (ec_prop _ _ _ HC).
-      - split; [exact Cb1|split; [exact Cb2|split; [reflexivity|split; [exact Cb3|split; [exact Cd|split; [exact Cc2|split; [exact Cc1|exact Hvne]]]]]]]. }
-    destruct H1 as (A1 & B1 & C1 & D1 & O1 & R1 & P1 & N1).
+      - split; [exact Cb1|split; [exact Cb2|split; [reflexivity|split; [exact Cb3|split; [exact Cd|split; [exact Cc2|split; [exact Cc1|split; [exact Hvne|reflexivity]]]]]]]]. }
+    destruct H1 as (A1 & B1 & C1 & D1 & O1 & R1 & P1 & N1 & V1).
     assert (HE1 : EV i1 = EV i) by (unfold EV; rewrite O1; reflexivity).
     apply Ev_begin_next_round; rewrite ?HE1, ?R1, ?O1, ?P1; [|exact L|exact Hr0| |exact Hc2].
-    - apply (EvC_upd (EV i) (i_round i + 1) (i_round i) i i1); [exact A1|exact B1| |exact D1|exact N1|exact HC].
+    - apply (EvC_upd (EV i) (i_round i + 1) (i_round i) i i1); [exact A1|exact B1| |exact D1|exact N1|rewrite V1; right; exists round, PREPARE; split; [exact Hr|exact Hb]|exact HC].
       rewrite C1, Ca. pose proof (Cands_mono (EV i) (EV i) (i_round i) (i_round i + 1) (i_cands i) (incl_refl _) ltac:(lia) (ec_cands _ _ _ HC)) as Hcm.
       destruct (is_candidate i v); [exact Hcm|]. apply Cands_add; [exact Hcm|]. split; [exact Hvne|right]. exists round. split; [lia|exact Hb].
     - apply (AllQ_rd c i); [unfold rd; rewrite A1, B1; reflexivity|exact HA]. }
@@ -753,7 +798,7 @@ Proof.
   - apply (Hrest (false || _)).
   - apply Ev_fail. exact HE.
   - apply (Hrest (true || _)).
-  - apply Ev_begin_decide; [apply Ev_set_value; exact HE|discriminate|]. exists round.
+  - apply Ev_begin_decide; [apply Ev_set_value; exact HE|discriminate|exact Hr|].
     change (EV (set_pv i (i_proposal i) (x :: v))) with (EV i). cbn [set_pv i_value].
     assert (Hx : exists s, sup_find (q_support comm) (x :: v) = Some s /\ s_sq s = true).
     { destruct (committee_wf_ok c Hwf) as (Ht & Hpow & Hsum). eapply find_sq_value_support; eassumption. }
@@ -777,7 +822,7 @@ Proof.
   set (p := q_longest_prefix (i_quality i) kin). destruct (longest_prefix_facts (i_quality i) Hk0) as (Hpne & Hpp & Hall). fold p in Hpne, Hpp, Hall.
   destruct (acp_spec i p) as (A & B & C & D & _). injection B as B1 B2 B3 B4 B5. unfold pview' in C. injection C as C1 C2 C3.
   apply (Ev_upd i); [exact L|split; [rewrite D; reflexivity|rewrite D; exact (fun H => H)]|]. split.
-  - rewrite C2. apply (EvC_upd (EV i) (i_round i) (i_round i) i); [exact B1|exact B2| |exact B3|rewrite B4; apply (ec_prop _ _ _ HC)|exact HC].
+  - rewrite C2. apply (EvC_upd (EV i) (i_round i) (i_round i) i); [exact B1|exact B2| |exact B3|rewrite B4; apply (ec_prop _ _ _ HC)|rewrite B4; apply (ec_pev _ _ _ HC)|exact HC].
     intros x Hx. destruct (A x Hx) as [Hx'|Hx']; [apply (ec_cands _ _ _ HC); exact Hx'|]. destruct (Hall x Hx') as [N P]. split; [exact N|left; exact P].
   - unfold EvP. rewrite C1, C2, B4. exact HP.
 Qed.
@@ -950,7 +995,7 @@ Proof.
       apply Ev_try_current_phase; assumption.
   - (* DECIDE *)
     destruct Hshape as (Hr0' & Hvne & j & Ej & Hjb & Hjp & Hjv).
-    cbv zeta.
+    cbv zeta. rewrite Ej.
     match goal with |- context [skip_to_decide ?x _ _] => set (i1 := x) end.
     assert (H1 : Ev i1 /\ AllQ c i1 /\ JI i1).
     { unfold i1. split; [|split].
@@ -963,8 +1008,8 @@ Proof.
     match goal with |- context [try_current_phase c ?x sway] => set (i2 := x) end.
     assert (H2 : Ev i2 /\ AllQ c i2 /\ JI i2).
     { unfold i2. destruct (negb (phase_eqb (i_phase i1) DECIDE)); [|split; [exact E1|split; [exact A1|exact J1]]].
-      split; [|split; [exact A1|exact J1]]. apply Ev_skip_to_decide; [exact E1|exact Hvne|]. exists (j_round j).
-      destruct Hjb as [_ Hjb]. rewrite Hjp, Hjv in Hjb. eapply SQz_mono; [apply E0_incl|exact Hjb]. }
+      split; [|split; [exact A1|exact J1]]. apply Ev_skip_to_decide; [exact E1|exact Hvne| |exact Hjp|exact Hjv].
+      eapply backed_mono; [apply E0_incl|exact Hjb]. }
     destruct H2 as (E2 & A2 & J2). apply Ev_try_current_phase; assumption.
 Qed.
 
@@ -1002,10 +1047,13 @@ Proof.
       * intros v Hv. cbn in Hv. destruct Hv as [<-|[]]. destruct Hf1 as [A B]. split; [exact A|left; exact B].
       * split; [reflexivity|exact Hk0].
       * exact Hk0.
+      * left. split; [exact Hk0|exists []; symmetry; apply app_nil_r].
     + split; [cbn; discriminate|]. split; [reflexivity|]. split; [cbn; discriminate|cbn; lia].
   - assert (Hout : exists t, i_out (step c (new_instance kin 0) (EvStart now)) = [OBroadcast 0 QUALITY kin None false; OAlarm t]) by (eexists; reflexivity).
     destruct Hout as (t & ->). cbn [log_ok].
-    split; [apply (guardz_quality (ovotes [OAlarm t] ++ E0) kin); [exact Hk0|reflexivity]|split; [lia|split; exact I]].
+    split; [apply (guardz_quality (ovotes [OAlarm t] ++ E0) kin); [exact Hk0|reflexivity]|split; [lia|split; [exact I|]]].
+    split; [split; [reflexivity|split; [exact Hk0|reflexivity]]|split; [|exact I]].
+    intros _. left. split; [exact Hk0|exists []; symmetry; apply app_nil_r].
 Qed.
 
 End Node.
